@@ -195,7 +195,7 @@ func Apply(ctx context.Context, rc *regclient.RegClient, rSrc ref.Ref, opts ...O
 					defer gw.Close()
 					ucw := io.MultiWriter(gw, digUC.Hash())
 					tw = tar.NewWriter(ucw)
-				} else if dl.desc.MediaType == mediatype.Docker2LayerZstd || dl.desc.MediaType == mediatype.OCI1LayerZstd {
+				} else if desc.MediaType == mediatype.Docker2LayerZstd || desc.MediaType == mediatype.OCI1LayerZstd {
 					cw := io.MultiWriter(fh, digRaw.Hash())
 					zw, err = zstd.NewWriter(cw)
 					if err != nil {
